@@ -159,6 +159,9 @@ template <class Fsm> auto link_check_impl(Fsm& fsm, int) -> decltype(fsm.get_upp
 template <class Fsm> void link_check_impl(Fsm&, long) {}
 template <class Fsm> void link_check(Fsm& fsm) { link_check_impl(fsm, 0); }
 
+// leading base of some generated derived events: their event base class then sits at a non-zero offset
+struct EvPad { long pad_a = 0x1111111111111111L, pad_b = 0x2222222222222222L; };
+
 // event description: generated code provides overloads rt_describe(const E&) -> std::string
 struct AnyTag {};
 template <class T> std::string rt_describe(const T&) { return std::string("?") ; }
